@@ -254,6 +254,13 @@ let run_match (r : Regex.re) (ncaps : int) (path : string) : string =
       Buffer.add_string b ";-";
       Buffer.contents b
 
+let full_match (r : Regex.re) (w : coq_N list) : bool =
+  let len = L.length w in
+  let size = int_of_nat (Regex.re_size r) in
+  let fuel = nat_of_int (((size + 2) * (len + 2)) + ((size + 2) * sum_lo r) + 16) in
+  let k w' c = match w' with [] -> Some c | _ -> None in
+  match Regex.m orbit (nat_of_int len) fuel r Datatypes.O w [] k with Some _ -> true | None -> false
+
 let cmd_match args =
   match args with
   | [e; p] -> (
@@ -469,7 +476,7 @@ let dispatch (line : string) : string =
       | "esc" -> cmd_esc args
       | "meta" -> cmd_meta args
       | "special" -> cmd_special args
-      | "walk" -> Walkdriver.cmd_walk args
+      | "walk" -> Walkdriver.cmd_walk has_casing args
       | _ -> "unknown-command " ^ cmd)
 
 exception Budget
@@ -477,6 +484,8 @@ let budget_s = try int_of_string (Sys.getenv "WAXMODEL_BUDGET") with _ -> 3
 
 let () =
   Sys.set_signal Sys.sigalrm (Sys.Signal_handle (fun _ -> raise Budget));
+  Walkdriver.to_str := to_str; Walkdriver.of_str := of_str; Walkdriver.unhex := unhex; Walkdriver.hex := hex;
+  Walkdriver.nat_of_int := nat_of_int; Walkdriver.int_of_nat := int_of_nat; Walkdriver.full_match := full_match;
   let dir = if Array.length Sys.argv > 1 then Sys.argv.(1) else "." in
   load_tables dir;
   try
